@@ -17,6 +17,7 @@ package yang
 //@ spec sval(n Number) int = n.Negative ? -n.Value : n.Value
 //@ spec val18(n Number) int = sval(n) * P10(18 - n.FractionDigits)
 //@ pred okNum(n Number) = n.FractionDigits <= 18
+//@ opaque val18      -- non-linear: callers see it as an uninterpreted function unless they reveal it
 //
 //@ func pow10 props C15
 //@   requires e <= 19
@@ -47,12 +48,14 @@ package yang
 //@   ensures  n.FractionDigits == m.FractionDigits ==> result == (sval(n) < sval(m))
 //@   pure
 //@   safe
+//@   reveal val18
 //@   split n.FractionDigits in 0..18
 //@   split m.FractionDigits in 0..18
 //
 //@ func (Number).Equal props C15 C10
 //@   requires okNum(n) && okNum(m)
 //@   ensures  result == (val18(n) == val18(m))
+//@   ensures  n.FractionDigits == m.FractionDigits ==> result == (sval(n) == sval(m))
 //@   pure
 //@   safe
 //
@@ -98,3 +101,79 @@ package yang
 //@   nowrap
 //@   wrapok -v
 //@   wrapok uint64(v)
+
+// ---------------------------------------------------------------------------
+// C10: ranges and lengths. All numbers of one restriction share one scale
+// (fraction-digits), so value sets are sets of signed mantissas.
+//
+//@ pred inr(x int, r YRange) = sval(r.Min) <= x && x <= sval(r.Max)
+//@ spec memA(x int, a array[YRange], o int, k int) bool = k <= 0 ? false : (inr(x, a[o+k-1]) || memA(x, a, o, k-1))
+//@ spec mem(x int, rs YangRange, k int) bool = memA(x, back(rs), off(rs), k)
+//@ pred validR(r YRange) = sval(r.Min) <= sval(r.Max)
+//@ pred sameFD(rs YangRange, F int) = forall i int :: 0 <= i && i < len(rs) ==> rs[i].Min.FractionDigits == F && rs[i].Max.FractionDigits == F
+//@ spec fdOf(rs YangRange) int = rs[0].Min.FractionDigits
+//@ pred allValid(rs YangRange, k int) = forall i int :: 0 <= i && i < k ==> validR(rs[i])
+//@ pred disjoint(rs YangRange, k int) = forall i int :: 0 <= i && i + 1 < k ==> sval(rs[i].Max) < sval(rs[i+1].Min)
+//@ pred nonAdjacent(rs YangRange, k int) = forall i int :: 0 <= i && i + 1 < k ==> sval(rs[i].Max) + 1 < sval(rs[i+1].Min)
+//@ pred sortedMin(rs YangRange) = forall i int, j int :: 0 <= i && i <= j && j < len(rs) ==> sval(rs[i].Min) <= sval(rs[j].Min)
+//
+// Membership by position: an element of part j (absolute position in the backing array) is a member.
+//@ lemma memIndex(x int, a array[YRange], o int, j int, n int) props C10
+//@   requires o <= j && j < o + n && inr(x, a[j])
+//@   ensures  memA(x, a, o, n)
+//@   induction n
+//@   trigger memA(x, a, o, n), a[j]
+//
+// Frame: writing at or beyond position o+k does not change membership in the first k parts.
+//@ lemma memUpd(x int, a array[YRange], o int, k int, j int, v YRange) props C10
+//@   requires j >= o + k
+//@   ensures  memA(x, upd(a, j, v), o, k) == memA(x, a, o, k)
+//@   induction k
+//@   trigger memA(x, upd(a, j, v), o, k)
+//
+//@ func (YRange).Valid props C10
+//@   requires r.Min.FractionDigits == r.Max.FractionDigits && r.Min.FractionDigits <= 18
+//@   ensures  result == validR(r)
+//@   pure
+//@   safe
+//
+//@ func (YangRange).Validate props C10
+//@   requires len(r) > 0 ==> fdOf(r) <= 18 && sameFD(r, fdOf(r))
+//@   ensures  result == nil ==> allValid(r, len(r)) && disjoint(r, len(r))
+//@   modifies nothing
+//@   safe
+//@   loop 1
+//@     invariant 0 <= _k && _k < len(r)
+//@     invariant p == r[_k]
+//@     invariant allValid(r, _k + 1) && disjoint(r, _k + 1)
+//
+//@ func (YangRange).Contains props C10
+//@   requires len(r) > 0 && len(s) > 0 ==> fdOf(r) <= 18 && sameFD(r, fdOf(r)) && sameFD(s, fdOf(r))
+//@   ensures  len(r) > 0 && result ==> (forall x int :: mem(x, s, len(s)) ==> mem(x, r, len(r)))
+//@   pure
+//@   safe
+//@   uses memIndex
+//@   loop 1
+//@     invariant 0 <= ri && ri < len(r)
+//@     invariant forall x int :: mem(x, s, _k) ==> mem(x, r, len(r))
+//@   loop 2
+//@     invariant 0 <= ri && ri < len(r)
+//@     decreases len(r) - ri
+//
+//@ func coalesce props C10
+//@   requires len(r) > 0 ==> fdOf(r) <= 18 && sameFD(r, fdOf(r))
+//@   requires allValid(r, len(r)) && sortedMin(r)
+//@   ensures  forall x int :: mem(x, result, len(result)) == mem(x, r, len(r))
+//@   ensures  allValid(result, len(result)) && nonAdjacent(result, len(result))
+//@   ensures  len(result) <= len(r) && (len(r) > 0 ==> len(result) > 0 && sameFD(result, fdOf(r)))
+//@   modifies nothing
+//@   safe
+//@   uses memUpd
+//@   nowrap
+//@   loop 1
+//@     modifies elems(cr)
+//@     invariant 0 <= i && i <= _k && _k + 1 <= len(r)
+//@     invariant forall x int :: (mem(x, cr, i) || inr(x, cr[i])) == mem(x, r, _k + 1)
+//@     invariant allValid(cr, i + 1) && nonAdjacent(cr, i + 1)
+//@     invariant forall j int :: 0 <= j && j <= i ==> cr[j].Min.FractionDigits == fdOf(r) && cr[j].Max.FractionDigits == fdOf(r)
+//@     invariant sval(cr[i].Min) <= sval(r[_k].Min)
